@@ -14,7 +14,7 @@ from fractions import Fraction
 import numpy as np
 
 from .. import core
-from ..core import Check, MachineryError, run_tlc
+from ..core import pyf, Check, MachineryError, run_tlc
 
 ULP = 2.0 ** -52
 
@@ -56,11 +56,11 @@ def run(tier, seed):
     for l in range(2, 8):
         on = IF.inclination_functions_on[l]
         off = IF.inclination_functions_off[l]
-        variants = [("py_func/array", on.py_func(angles))]
+        variants = [("py_func/array", pyf(on)(angles))]
         variants.append(("jit/array", {k: np.asarray(v) for k, v in on(angles).items()}))
         sc = {}
         for j in (0, 37, 100, nang - 1):
-            for k, v in on.py_func(float(angles[j])).items():
+            for k, v in pyf(on)(float(angles[j])).items():
                 sc.setdefault(k, {})[j] = float(v)
         for tag, res in variants:
             keys = set(res.keys())
@@ -94,7 +94,7 @@ def run(tier, seed):
                 if abs(v - float(arr[k][j])) > 1e-12 * max(float(np.max(np.abs(arr[k]))), 1e-300):
                     ck.violation({"clause": "scalar_array", "l": l, "m": k[0], "p": k[1]}, "calc_inclin_l%d scalar vs array differ at (m,p)=%s" % (l, k), {"l": l})
         # obliquity-off tables: value at I = 0, omitted entries are exactly zero there
-        for tag, res in (("py_func", off.py_func(np.zeros(2))), ("jit", off(np.zeros(2))), ("scalar", off.py_func(0.0))):
+        for tag, res in (("py_func", pyf(off)(np.zeros(2))), ("jit", off(np.zeros(2))), ("scalar", pyf(off)(0.0))):
             keys = set(res.keys())
             for m in range(l + 1):
                 for p in range(l + 1):
@@ -112,7 +112,7 @@ def run(tier, seed):
                                      "calc_inclin_l%d_off omits (m,p)=(%d,%d) but F^2(0) = %s" % (l, m, p, exact), {"l": l, "m": m, "p": p})
         # degree coefficients
         uc = get_universal_coeffs(l)
-        ucp = get_universal_coeffs.py_func(l)
+        ucp = pyf(get_universal_coeffs)(l)
         for m in range(l + 1):
             ck.case(("uni", l, m), True)
             for tag, tab in (("jit", uc), ("py", ucp)):
